@@ -10,14 +10,14 @@
 
   Main result: `C05_safety` — after EVERY fault history the payloads handed to one side's application are a PREFIX of
   the payloads the other side accepted for sending (in order, exactly once, nothing that was not sent, nothing skipped),
-  for all configurations with persistence on, the reset options off, mirrored non-empty CompIDs and the same BeginString
+  for all configurations with persistence on, the reset options off, mirrored CompIDs and the same BeginString
   (any role assignment, chunk size, heartbeat settings, latency check, …), all non-empty payloads, as long as the
   sequence numbers stay within Go's `int`.
   The statement first written down (`C05_safety_full`, no side conditions) is FALSE of the model: see the `#guard` below.
 -/
 import Qfx.Spec.Link
 import Qfx.Props.C01
-import Qfx.Lemmas.LinkC05h
+import Qfx.Lemmas.LinkC05i
 open Qfx Qfx.Sess Qfx.Link
 
 theorem isPrefix_iff (a b : List String) : isPrefix a b = true ↔ ∃ t, b = a ++ t := by
@@ -90,7 +90,7 @@ theorem C05_numbers_fit_iff (l : LSt) (evs : List LEv) :
     · intro h
       exact ⟨h 0 (by omega), fun k hk => h (k + 1) (by omega)⟩
 
-/-- **C05, safety, every fault history.**  Persistence on and all reset options off on both sides, mirrored non-empty
+/-- **C05, safety, every fault history.**  Persistence on and all reset options off on both sides, mirrored
     CompIDs, the same BeginString — every other setting free (roles, chunk size, heartbeat settings, latency check,
     RefreshOnLogon, DefaultApplVerID) — every history of connects, sends on both sides (non-empty payload ids),
     deliveries of the oldest message in flight, cuts losing everything in flight, restarts of either engine on its
@@ -101,21 +101,32 @@ theorem C05_safety (cfgA cfgB : Cfg) (evs : List LEv)
     (hpa : cfgA.persist = true) (hpb : cfgB.persist = true)
     (ha1 : cfgA.resetOnLogon = false) (ha2 : cfgA.resetOnLogout = false) (ha3 : cfgA.resetOnDisconnect = false)
     (hb1 : cfgB.resetOnLogon = false) (hb2 : cfgB.resetOnLogout = false) (hb3 : cfgB.resetOnDisconnect = false)
-    (hne1 : cfgA.sender ≠ "") (hne2 : cfgA.target ≠ "")
     (hpay : ∀ side p, LEv.send side p ∈ evs → p ≠ "")
     (hfit : C05_numbers_fit (linkInit cfgA cfgB) evs) :
     let l := runLink (linkInit cfgA cfgB) evs
     safe l.sentA l.sentB l.dlvA l.dlvB = true := by
   intro l
-  have hcf : CfgsOK cfgA cfgB := ⟨hpa, hpb, ⟨ha1, ha2, ha3⟩, ⟨hb1, hb2, hb3⟩, hst, hts, hbs, hne1, hne2⟩
-  have hev : ∀ e ∈ evs, EvOKL e := by
-    intro e he
-    cases e with
-    | send side p => exact hpay side p he
-    | _ => trivial
-  have := LInv_run hcf evs _ (LInv_init cfgA cfgB) hev hfit
-  rw [← runLink_eq] at this
-  exact safe_of_LInv this
+  by_cases hne : cfgA.sender = "" ∨ cfgA.target = ""
+  · -- an empty CompID: no Logon is ever accepted, nothing is ever delivered
+    have hb : cfgB.sender = "" ∨ cfgB.target = "" := by
+      rcases hne with h | h
+      · exact Or.inr (by rw [← hst]; exact h)
+      · exact Or.inl (by rw [← hts]; exact h)
+    have hbad : (cfgA.sender = "" ∨ cfgA.target = "") ∧ (cfgB.sender = "" ∨ cfgB.target = "") := ⟨hne, hb⟩
+    have := LInvD_run hbad evs _ (LInvD_init cfgA cfgB) rfl rfl
+    rw [← runLink_eq] at this
+    exact safe_of_LInvD this
+  · have hne1 : cfgA.sender ≠ "" := fun h => hne (Or.inl h)
+    have hne2 : cfgA.target ≠ "" := fun h => hne (Or.inr h)
+    have hcf : CfgsOK cfgA cfgB := ⟨hpa, hpb, ⟨ha1, ha2, ha3⟩, ⟨hb1, hb2, hb3⟩, hst, hts, hbs, hne1, hne2⟩
+    have hev : ∀ e ∈ evs, EvOKL e := by
+      intro e he
+      cases e with
+      | send side p => exact hpay side p he
+      | _ => trivial
+    have := LInv_run hcf evs _ (LInv_init cfgA cfgB) hev hfit
+    rw [← runLink_eq] at this
+    exact safe_of_LInv this
 
 /-- the same, clause by clause, for the direction A → B (payload ids are unique): nothing is delivered that was not
     sent, nothing is delivered twice, and the deliveries are the first submissions in submission order -/
@@ -124,7 +135,6 @@ theorem C05_safety_clauses (cfgA cfgB : Cfg) (evs : List LEv)
     (hpa : cfgA.persist = true) (hpb : cfgB.persist = true)
     (ha1 : cfgA.resetOnLogon = false) (ha2 : cfgA.resetOnLogout = false) (ha3 : cfgA.resetOnDisconnect = false)
     (hb1 : cfgB.resetOnLogon = false) (hb2 : cfgB.resetOnLogout = false) (hb3 : cfgB.resetOnDisconnect = false)
-    (hne1 : cfgA.sender ≠ "") (hne2 : cfgA.target ≠ "")
     (hpay : ∀ side p, LEv.send side p ∈ evs → p ≠ "")
     (hfit : C05_numbers_fit (linkInit cfgA cfgB) evs) :
     let l := runLink (linkInit cfgA cfgB) evs
@@ -132,7 +142,7 @@ theorem C05_safety_clauses (cfgA cfgB : Cfg) (evs : List LEv)
     (l.sentA.Nodup → l.dlvB.Nodup ∧ l.dlvB = l.sentA.take l.dlvB.length) ∧
     (l.sentB.Nodup → l.dlvA.Nodup ∧ l.dlvA = l.sentB.take l.dlvA.length) := by
   intro l
-  have h := C05_safety cfgA cfgB evs hst hts hbs hpa hpb ha1 ha2 ha3 hb1 hb2 hb3 hne1 hne2 hpay hfit
+  have h := C05_safety cfgA cfgB evs hst hts hbs hpa hpb ha1 ha2 ha3 hb1 hb2 hb3 hpay hfit
   simp only [safe, Bool.and_eq_true] at h
   obtain ⟨t1, e1⟩ := (isPrefix_iff _ _).1 h.1
   obtain ⟨t2, e2⟩ := (isPrefix_iff _ _).1 h.2
@@ -211,7 +221,8 @@ Clause checklist (properties.jsonl C05)
 * the links carry messages faithfully; numbers survive the wire        : C05_link_faithful, C05_number_round_trip
 * side conditions of C05_safety, all satisfiable (demoHistory, #guard) : non-empty payload ids (an empty tag value is rejected
     as malformed by the peer and consumed: `cexHistory`, the statement without this condition `C05_safety_full` is FALSE);
-    non-empty CompIDs (with an empty CompID no Logon is ever accepted); numbers within Go's `int` (`C05_numbers_fit`)
+    numbers within Go's `int` (`C05_numbers_fit`).  (Empty CompIDs need no condition: no Logon is then ever accepted
+    and nothing is delivered — Lemmas/LinkC05i.lean.)
 * "every message … is delivered … once the link stays up for a few heartbeat intervals" (liveness): no theorem; monitor clause
     `C05.not_all_delivered_after_settle` of `monLink` evaluated on the real engines by the `link` family
 -/
